@@ -208,12 +208,7 @@ def oracle_seq(rc):
                             "at %d: got %s, expected %s" % (d.name, d.intervals, len(hl), len(wl), i,
                                                             hl[i][:300] if i < len(hl) else None,
                                                             wl[i][:300] if i < len(wl) else None))
-        # registration order: a destination registered earlier is called earlier
-    for r in S:
-        offs = [(x.seq, di) for di, x in offers.get((r.call, cm(r)), ())]
-        order = [i for _s, i in sorted(offs)]
-        if order != sorted(order):
-            raise Violation("registration_order", "destinations were called in order %s for one message" % order)
+    # (in which order the destinations are served for one message is not stated: not checked)
     # 3. reports: exactly one per raising offer of a non-report, none for reports.  The property does not
     #    say *when* a report is emitted, only that it is; so reports are matched by content (they name the
     #    affected message by task_uuid/task_level and carry the exception's class path and text), anywhere
